@@ -332,3 +332,78 @@ Fixpoint run_from (s : st) (inp : list (ev * list Z)) : st * list (ev * obs) :=
 Definition run (inp : list (ev * list Z)) : st * list (ev * obs) := run_from init inp.
 Definition final (inp : list (ev * list Z)) : st := fst (run inp).
 Definition trace (inp : list (ev * list Z)) : list (ev * obs) := snd (run inp).
+
+(* ======================================================================
+   Second machine: worker.Run (query/worker.go), one worker and its peer.
+   One [wstep] = one select of the worker's loops becoming ready.
+   * WJob j pc: a job is offered on nextJob; pc = one of the job's cancel
+     channels (caller's or batch-internal) is already closed at pick-up.
+     Only an idle worker reads nextJob.  A pre-cancelled job is not queued to
+     the peer and goes straight to the ErrJobCanceled result.
+   * WMsg fin prog: a message from the peer; while idle it is ignored, while
+     busy HandleResp returns Progress{fin, prog} (prog only re-arms the job
+     timer, which is not modelled beyond fired / not fired).
+   * WTimer / WDisconnect / WCancel / WIntCancel: the job timer fires, the
+     peer disconnects, the caller's cancel channel / the batch-internal
+     cancel channel (hard or idle timeout of the batch) is closed.
+   * WTake: the dispatcher receives the pending jobResult.
+   * WQuit: the quit channel is closed.
+   [WGone lost]: Run has returned; lost = the job it held when told to quit. *)
+Inductive wstate := WIdle | WBusy (j : Z) | WSend (j : Z) (e : jerr) | WGone (lost : option Z).
+
+Inductive wev :=
+  | WJob (j : Z) (precancel : bool)
+  | WMsg (finished progressed : bool)
+  | WTimer | WDisconnect | WCancel | WIntCancel
+  | WTake
+  | WQuit.
+
+Record wobs := {
+  wacc : bool;                  (* the offered job was read from nextJob *)
+  wsent : bool;                 (* its request was queued to the peer *)
+  wres : option (Z * jerr)      (* jobResult delivered *)
+}.
+Definition wnone : wobs := {| wacc := false; wsent := false; wres := None |}.
+
+Definition wstep (s : wstate) (e : wev) : wstate * wobs :=
+  match s with
+  | WIdle =>
+    match e with
+    | WJob j pc =>
+      if pc then (WSend j JCanceled, {| wacc := true; wsent := false; wres := None |})
+      else (WBusy j, {| wacc := true; wsent := true; wres := None |})
+    | WDisconnect => (WGone None, wnone)
+    | WQuit => (WGone None, wnone)
+    | _ => (WIdle, wnone)
+    end
+  | WBusy j =>
+    match e with
+    | WMsg fin _ => if fin then (WSend j JOk, wnone) else (WBusy j, wnone)
+    | WTimer => (WSend j JTimeout, wnone)
+    | WDisconnect => (WSend j JDisconnected, wnone)
+    | WCancel => (WSend j JCanceled, wnone)
+    | WIntCancel => (WSend j JCanceled, wnone)
+    | WQuit => (WGone (Some j), wnone)
+    | _ => (WBusy j, wnone)
+    end
+  | WSend j err =>
+    match e with
+    | WTake =>
+      ((match err with JDisconnected => WGone None | _ => WIdle end),
+       {| wacc := false; wsent := false; wres := Some (j, err) |})
+    | WQuit => (WGone (Some j), wnone)
+    | _ => (WSend j err, wnone)
+    end
+  | WGone l => (WGone l, wnone)
+  end.
+
+Fixpoint wrun_from (s : wstate) (es : list wev) : wstate * list (wev * wobs) :=
+  match es with
+  | [] => (s, [])
+  | e :: rest =>
+    let '(s1, o) := wstep s e in
+    let '(s2, tr) := wrun_from s1 rest in
+    (s2, (e, o) :: tr)
+  end.
+Definition wfinal (es : list wev) : wstate := fst (wrun_from WIdle es).
+Definition wtrace (es : list wev) : list (wev * wobs) := snd (wrun_from WIdle es).
